@@ -63,21 +63,28 @@ struct StateProp : Prop {
 		int maxt = 1;
 		struct N { std::vector<uint8_t> addr; bool present; bool iface; };
 		std::vector<N> ns; for (auto &b : w.boards) ns.push_back({b.addr, b.present, b.is_iface()});
+		cfg::World wcur = w;      // where the boards are now (feedback after a re-login comes from the new address)
+		int relogin_next = -1;
 		for (int i = 0; i < nsteps; i++) {
 			J ph = J::obj();
 			uint64_t x = r.below(100);
-			if (r.chance(40)) {
+			if (relogin_next < 0 && r.chance(40)) {
 				// the application resets the system while state is populated: everything returns to its initial value, then the start-up traffic counts again
 				J pre = J::arr(); J ro = J::obj(); ro.set("op", "reset"); pre.push(ro); ph.set("pre", pre);
-			} else if (r.chance(70) && ns.size() > 1) {
+			} else if (relogin_next >= 0 || (r.chance(70) && ns.size() > 1)) {
 				// a board leaves the bus / logs in again (possibly at another address): feedback follows the connectivity
-				size_t k = r.below(ns.size());
+				size_t k = relogin_next >= 0 ? (size_t) relogin_next : r.below(ns.size());
+				bool forced = relogin_next >= 0; relogin_next = -1;
 				if (ns[k].addr.empty()) continue;
 				J ev = J::arr(); J e = J::obj(); e.set("at_us", 0); e.set("node", pc::jaddr(ns[k].addr));
-				if (ns[k].present) { e.set("topo", "lost"); ns[k].present = false; }
+				if (ns[k].present) {
+					e.set("topo", "lost"); ns[k].present = false;
+					// the notice itself is destroyed on the bus; the board logs in again in the very next step (mostly elsewhere) while the host still believes it connected
+					if (!ns[k].iface && r.chance(200)) { J fs = J::arr(); J f = J::obj(); f.set("kind", "lose"); fs.push(f); e.set("faults", fs); relogin_next = (int) k; }
+				}
 				else {
 					e.set("topo", "new");
-					if (!ns[k].iface && r.chance(500)) {
+					if (!ns[k].iface && r.chance(forced ? 850 : 500)) {
 						// re-login at an address that is free now - preferably one another board has just left (the addresses are swapped)
 						std::vector<uint8_t> na;
 						for (auto &y : ns) if (!y.present && y.addr.size() == 1 && !y.iface && y.addr != ns[k].addr && r.coin()) { bool used = false; for (auto &z : ns) if (z.present && z.addr == y.addr) used = true; if (!used) na = y.addr; }
@@ -86,6 +93,7 @@ struct StateProp : Prop {
 					}
 					ns[k].present = true;
 				}
+				if (k < wcur.boards.size()) { wcur.boards[k].present = ns[k].present; wcur.boards[k].addr = ns[k].addr; }
 				ev.push(e); ph.set("bus", ev);
 			} else if (!is_c08 && x < 25) {
 				// user command (sequential, followed by quiesce)
@@ -108,25 +116,29 @@ struct StateProp : Prop {
 				auto sg = sgs[r.below(sgs.size())];
 				const cfg::Train &tr = w.trains[r.below(w.trains.size())];
 				J ev = J::arr(); int t = 0;
-				for (int k = 0, n = (int) r.range(4, 14); k < n; k++) {
+				bool dense = r.coin();     // dense: one report per 5 ms grid instant for 50-200 ms, readers work in batches at every instant
+				for (int k = 0, n = dense ? (int) r.range(10, 40) : (int) r.range(4, 14); k < n; k++) {
 					J e = J::obj(); e.set("at_us", t); e.set("node", pc::jaddr(sg.first->addr)); e.set("type", (int) MSG_BM_ADDRESS);
 					J d = J::arr(); d.push((int) sg.second->addr);
 					uint64_t y = r.below(100);
 					if (y < 25) { d.push(0); d.push(0); }
 					else { d.push((int) tr.addrl); d.push((int) ((tr.addrh & 0x3F) | (r.coin() ? 0x80 : 0))); if (y > 70 && w.trains.size() > 1) { const cfg::Train &t2 = w.trains[r.below(w.trains.size())]; d.push((int) t2.addrl); d.push((int) (t2.addrh & 0x3F)); } }
 					e.set("data", d); ev.push(e);
-					t += (int) r.range(0, 2) * 5000;
+					t += dense ? 5000 : (int) r.range(0, 2) * 5000;
 				}
 				ph.set("bus", ev);
 				int nt = (int) r.range(1, 3); maxt = std::max(maxt, nt);
 				J tasks = J::arr();
 				for (int q = 0; q < nt; q++) {
 					J ops = J::arr();
-					for (int k = 0, no = (int) r.range(6, 24); k < no; k++) {
+					if (dense) { J sl = J::obj(); sl.set("op", "sleep"); sl.set("us", 5000); ops.push(sl); }
+					for (int k = 0, no = dense ? (int) r.range(30, 90) : (int) r.range(6, 24); k < no; k++) {
 						J g = J::obj(); J s = J::arr();
-						uint64_t y = r.below(100);
+						uint64_t y = dense ? r.below(82) : r.below(100);
+						if (dense && k % 4 == 3) y = 99;      // a batch of three calls, then the next grid instant
 						if (y < 55) { g.set("op", "get"); g.set("fn", "train_position"); s.push(tr.id); }
-						else if (y < 80) { g.set("op", "get"); g.set("fn", "train_on_track"); s.push(tr.id); }
+						else if (y < 70) { g.set("op", "get"); g.set("fn", "train_on_track"); s.push(tr.id); }
+						else if (y < 88) { g.set("op", "get"); g.set("fn", "segment_state"); s.push(sg.second->id); }
 						else { g.set("op", "sleep"); g.set("us", 5000); }
 						g.set("s", s); g.set("i", J::arr()); ops.push(g);
 					}
@@ -140,9 +152,9 @@ struct StateProp : Prop {
 					// occupancy subset
 					// (one event in eight is another report about segments or trains - confidence, current, speed, dynamic state: presence must not move)
 					bool other = r.chance(125);
-					do { e = api::uplink_event(r, w, 0); } while (other ? (e.geti("type") != MSG_BM_CONFIDENCE && e.geti("type") != MSG_BM_CURRENT && e.geti("type") != MSG_BM_SPEED && e.geti("type") != MSG_BM_DYN_STATE)
+					do { e = api::uplink_event(r, wcur, 0); } while (other ? (e.geti("type") != MSG_BM_CONFIDENCE && e.geti("type") != MSG_BM_CURRENT && e.geti("type") != MSG_BM_SPEED && e.geti("type") != MSG_BM_DYN_STATE)
 					                                                      : (e.geti("type") != MSG_BM_OCC && e.geti("type") != MSG_BM_FREE && e.geti("type") != MSG_BM_MULTIPLE && e.geti("type") != MSG_BM_ADDRESS));
-				} else e = api::uplink_event(r, w, 0);
+				} else e = api::uplink_event(r, wcur, 0);
 				if (!is_c08) {
 					uint64_t z = r.below(100);
 					if (z < 8) { J f = J::arr(); J ff = J::obj(); ff.set("kind", "flip"); ff.set("a", (int) r.below(40)); ff.set("b", (int) r.below(8)); f.push(ff); e.set("faults", f); }   // corrupted copy: must change nothing
@@ -193,7 +205,7 @@ struct StateProp : Prop {
 	void attach(Engine &e) override {
 		model = sm::Model(); model.init(cfg::from_json(e.plan["world"]));
 		wire_pos = frame_pos = ops_pos = 0; checks = corrupted_seen = span2 = shared2 = snapshot_checks = snapshot_skipped = 0; seg_log.clear(); receiver = -1;
-		vers.clear(); pending_reads.clear(); reader_results_judged = reader_results_overlapping_update = 0; before_wire = nullptr; started = reset_pending = false; resets_folded = 0; reset_wire_from = 0;
+		vers.clear(); pending_reads.clear(); reader_results_judged = reader_results_overlapping_update = segment_results_judged = 0; before_wire = nullptr; started = reset_pending = false; resets_folded = 0; reset_wire_from = 0;
 		g_seg_log = &seg_log; sim::hooks().on_lock = seg_lock_hook;
 	}
 	void before_stop(Engine &, int) override { g_seg_log = nullptr; sim::hooks().on_lock = nullptr; }
@@ -217,7 +229,7 @@ struct StateProp : Prop {
 			}
 			else {
 				for (auto &m : e.bus.done[frame_pos].msgs) { if (m.type == MSG_NODE_NEW || m.type == MSG_NODE_LOST) topo_events++; model.apply_uplink(m); }
-				if (is_c08 && !vers.empty()) { vers.back().end = e.bus.done[frame_pos].processed_step; Ver v; v.start = e.bus.done[frame_pos].last_read_step; v.pos = presence_now(); vers.push_back(v); }
+				if (is_c08 && !vers.empty()) { vers.back().end = e.bus.done[frame_pos].processed_step; Ver v; v.start = e.bus.done[frame_pos].last_read_step; v.pos = presence_now(); v.seg = segs_now(); vers.push_back(v); }
 				frame_pos++;
 			}
 		}
@@ -243,11 +255,12 @@ struct StateProp : Prop {
 	// ---- C08, concurrent readers: presence versions. Version k = presence as of uplink frame k; it can be what a reader sees from the
 	// delivery of frame k (start) until frame k+1 is known to be processed (end). A reader's result must equal some version whose
 	// window overlaps the call: the updates are atomic under the library's locks, anything else is a torn or stale view.
-	struct Ver { uint64_t start = 0, end = UINT64_MAX; std::map<std::string, std::vector<std::string>> pos; };
+	struct Ver { uint64_t start = 0, end = UINT64_MAX; std::map<std::string, std::vector<std::string>> pos; std::map<std::string, std::string> seg; };
+	std::map<std::string, std::string> segs_now() { std::map<std::string, std::string> m; J sj = model.to_json()["segments"]; for (auto &kv : sj.o) m[kv.first] = kv.second.dump(); return m; }
 	std::vector<Ver> vers;
 	struct PendingRead { std::string fn, train; J result; uint64_t inv, ret; };
 	std::vector<PendingRead> pending_reads;
-	uint64_t reader_results_judged = 0, reader_results_overlapping_update = 0, topo_events = 0;
+	uint64_t reader_results_judged = 0, reader_results_overlapping_update = 0, topo_events = 0, segment_results_judged = 0;
 	std::map<std::string, std::vector<std::string>> presence_now() {
 		std::map<std::string, std::vector<std::string>> p;
 		for (auto &t : model.w.trains) { std::vector<std::string> segs; for (auto &b : model.w.boards) for (auto &g : b.segs) for (auto &a : model.sg[g.id].addrs) if (a[0] == t.addrl && a[1] == t.addrh) segs.push_back(g.id); std::sort(segs.begin(), segs.end()); segs.erase(std::unique(segs.begin(), segs.end()), segs.end()); p[t.id] = segs; }
@@ -255,6 +268,20 @@ struct StateProp : Prop {
 	}
 	void judge_readers(Engine &e) {
 		for (auto &pr : pending_reads) {
+			if (pr.fn == "segment_state") {
+				// a concurrent copy of one segment's state must be the state the segment had at some moment of the call
+				if (!pr.result.getb("known")) continue;
+				std::vector<const Ver *> cand;
+				for (auto &v : vers) if (v.start <= pr.ret && v.end >= pr.inv && v.seg.count(pr.train)) cand.push_back(&v);
+				if (cand.empty()) continue;
+				reader_results_judged++; segment_results_judged++;
+				if (cand.size() > 1) reader_results_overlapping_update++;
+				std::string got = pr.result["data"].dump(); bool ok = false; std::string allowed;
+				for (const Ver *v : cand) { if (v->seg.at(pr.train) == got) ok = true; if (allowed.size() < 900) allowed += v->seg.at(pr.train) + " "; }
+				if (!ok) e.violate("READER_SAW_IMPOSSIBLE_SEGMENT_STATE", "bidib_get_segment_state", "concurrent bidib_get_segment_state(" + pr.train + ") (steps " + std::to_string(pr.inv) + ".." + std::to_string(pr.ret) + ") returned " + got.substr(0, 400) +
+				                     ", but the states the segment had at any moment of the call are " + allowed + "- a torn or stale copy of the decoder list");
+				continue;
+			}
 			if (!model.w.train(pr.train)) continue;
 			std::vector<const Ver *> cand;
 			for (auto &v : vers) if (v.start <= pr.ret && v.end >= pr.inv) cand.push_back(&v);
@@ -292,9 +319,9 @@ struct StateProp : Prop {
 
 	void after_op(Engine &e, OpRec &o) override {
 		const std::string &k = o.op->gets("op");
-		if (k == "reset") { ingest(e); initial_dcc(e, reset_wire_from); if (is_c08 && !vers.empty()) { vers.back().end = sim::step(); Ver v; v.start = o.inv_step; v.pos = presence_now(); vers.push_back(v); } return; }
-		if (is_c08 && k == "get" && (o.op->gets("fn") == "train_position" || o.op->gets("fn") == "train_on_track") && (*o.op)["s"].size() > 0 && (*o.op)["s"][0].is_str()) {
-			if (vers.empty()) { ingest(e); Ver v; v.pos = presence_now(); vers.push_back(v); }
+		if (k == "reset") { ingest(e); initial_dcc(e, reset_wire_from); if (is_c08 && !vers.empty()) { vers.back().end = sim::step(); Ver v; v.start = o.inv_step; v.pos = presence_now(); v.seg = segs_now(); vers.push_back(v); } return; }
+		if (is_c08 && k == "get" && (o.op->gets("fn") == "train_position" || o.op->gets("fn") == "train_on_track" || o.op->gets("fn") == "segment_state") && (*o.op)["s"].size() > 0 && (*o.op)["s"][0].is_str()) {
+			if (vers.empty()) { ingest(e); Ver v; v.pos = presence_now(); v.seg = segs_now(); vers.push_back(v); }
 			pending_reads.push_back(PendingRead{o.op->gets("fn"), (*o.op)["s"][0].str(), o.result, o.inv_step, o.ret_step});
 		}
 		if (k == "hl" && o.ret == 0) {
@@ -377,7 +404,7 @@ struct StateProp : Prop {
 
 	void at_quiescence(Engine &e, int s, int p) override {
 		ingest(e);
-		if (is_c08) { if (vers.empty()) { Ver v; v.pos = presence_now(); vers.push_back(v); } judge_readers(e); }
+		if (is_c08) { if (vers.empty()) { Ver v; v.pos = presence_now(); v.seg = segs_now(); vers.push_back(v); } judge_readers(e); }
 		if (e.plan["sessions"][(size_t) s]["phases"][(size_t) p].getb("check")) compare(e, p == 0 ? "after start-up" : "after a feedback message / command");
 	}
 
@@ -386,7 +413,7 @@ struct StateProp : Prop {
 		f.set("shape", (long long) (pc::shape_hash(e.plan) >> 1));
 		J p = J::obj(); p.set("state_comparisons", (long long) checks); p.set("unknown_target_messages", (long long) model.unknown_targets); p.set("list_valued_messages", (long long) model.list_valued);
 		if (!is_c08) p.set("corrupted_copies_delivered", (long long) corrupted_seen); p.set("application_resets_folded", (long long) resets_folded); p.set("topology_notices", (long long) topo_events);
-		if (is_c08) { p.set("train_spanning_two_segments", (long long) span2); p.set("segment_with_two_addresses", (long long) shared2); p.set("consistent_snapshots_checked", (long long) snapshot_checks); p.set("concurrent_presence_results_judged", (long long) reader_results_judged); p.set("concurrent_presence_results_overlapping_an_update", (long long) reader_results_overlapping_update); p.set("snapshots_overlapping_an_update", (long long) snapshot_skipped); }
+		if (is_c08) { p.set("train_spanning_two_segments", (long long) span2); p.set("segment_with_two_addresses", (long long) shared2); p.set("consistent_snapshots_checked", (long long) snapshot_checks); p.set("concurrent_presence_results_judged", (long long) reader_results_judged); p.set("concurrent_presence_results_overlapping_an_update", (long long) reader_results_overlapping_update); p.set("snapshots_overlapping_an_update", (long long) snapshot_skipped); p.set("concurrent_segment_state_results_judged", (long long) segment_results_judged); }
 		f.set("probes", p);
 	}
 };
